@@ -547,6 +547,15 @@ func (x *tr) pkgVar(e ast.Expr) string {
 	return ""
 }
 
+func (x *tr) hasHeap() bool {
+	for _, e := range x.t.effects {
+		if e == "heap_" {
+			return true
+		}
+	}
+	return false
+}
+
 func (x *tr) hasCall(k string) bool { _, ok := x.t.calls[k]; return ok }
 
 func (x *tr) fill(tmpl string, c *ast.CallExpr) string { return x.fillWith(tmpl, c, nil) }
@@ -789,6 +798,17 @@ func (x *tr) expr(e ast.Expr) string {
 			}
 			return tuple(els)
 		}
+		if _, isSlice := x.p.TypesInfo.TypeOf(z).Underlying().(*types.Slice); x.t.strict && isSlice && x.kindOf(z) == "hslice" {
+			// []T{a, b} on heap cells: a new array
+			var els []string
+			for _, e := range z.Elts {
+				if _, kv := e.(*ast.KeyValueExpr); kv {
+					x.bad(z, "keyed slice literal")
+				}
+				els = append(els, x.expr(e))
+			}
+			return x.letPair(fmt.Sprintf("h_lit %s [%s]", x.use("heap_"), strings.Join(els, "; ")), "heap_")
+		}
 		if x.t.strict {
 			if _, isSlice := x.p.TypesInfo.TypeOf(z).Underlying().(*types.Slice); isSlice && strings.HasPrefix(x.kindOf(z), "list ") {
 				var els []string
@@ -1012,6 +1032,11 @@ func (x *tr) expr(e ast.Expr) string {
 					return x.partial("str_repeat " + paren(x.expr(z.Args[0])) + " " + paren(x.expr(z.Args[1])))
 				}
 			case "append":
+				if x.kindOf(z.Args[0]) == "hslice" && len(z.Args) == 2 && z.Ellipsis != token.NoPos && x.kindOf(z.Args[1]) == "hslice" {
+					// append(a, b...): the cells of b are read first, then written after a (in place when they fit)
+					a, b := x.expr(z.Args[0]), x.expr(z.Args[1])
+					return x.letPair(fmt.Sprintf("h_append_all %s %s %s (h_read %s %s)", x.use("f_growcap"), x.use("heap_"), paren(a), x.use("heap_"), paren(b)), "heap_")
+				}
 				if x.kindOf(z.Args[0]) == "hslice" && len(z.Args) == 2 && z.Ellipsis == token.NoPos {
 					// on heap cells append writes into the spare capacity of the SAME array when there is some
 					a, e := x.expr(z.Args[0]), x.expr(z.Args[1])
@@ -1060,6 +1085,10 @@ func (x *tr) expr(e ast.Expr) string {
 			case "make":
 				if x.kindOf(z) == "gslice" && len(z.Args) == 3 && x.kindOf(z.Args[1]) == "Z" && x.kindOf(z.Args[2]) == "Z" {
 					return x.partial("sl_make " + paren(x.expr(z.Args[1])) + " " + paren(x.expr(z.Args[2])))
+				}
+				if x.kindOf(z) == "hslice" && len(z.Args) == 3 && x.kindOf(z.Args[1]) == "Z" && x.kindOf(z.Args[2]) == "Z" {
+					r := x.partial(fmt.Sprintf("h_make_cap %s %s %s %s", x.use("heap_"), paren(x.expr(z.Args[1])), paren(x.expr(z.Args[2])), x.use("h_zero")))
+					return x.letPair(r, "heap_")
 				}
 				if x.kindOf(z) == "hslice" && len(z.Args) == 2 && x.kindOf(z.Args[1]) == "Z" {
 					r := x.partial(fmt.Sprintf("h_make %s %s %s", x.use("heap_"), paren(x.expr(z.Args[1])), x.use("h_zero")))
@@ -1381,6 +1410,14 @@ func (x *tr) outerAssignedIn(stmts []ast.Stmt, lo, hi token.Pos) []string {
 				}
 			case *ast.CallExpr:
 				if cs, ok := x.t.calls[x.callKey(z)]; ok && (cs.ev != "" || cs.tick || cs.state != "" || cs.tail != "") {
+					effect = true
+				}
+				// allocation and writes on heap cells rebind heap_
+				if k := x.callKey(z); (k == "make" || k == "append" || k == "copy") && x.hasHeap() {
+					effect = true
+				}
+			case *ast.CompositeLit:
+				if x.hasHeap() && x.kindOf(z) == "hslice" {
 					effect = true
 				}
 			}
